@@ -88,6 +88,8 @@ func optsFor(prop string) GenOpts {
 		o.PPred, o.PEnd, o.PFallback = 0.4, 0.6, 0.3
 	case "C07":
 		o.PCOE = 0.15
+	case "C12":
+		o.PEmitters = 0.6 // emitter state is shared between concurrent executions
 	case "C09":
 	case "C03":
 		o.Wide, o.PParallel = true, 0.6
@@ -256,6 +258,9 @@ func specLabels(s *rt.Spec) []string {
 	}
 	if s.EmitNest {
 		l = append(l, "emitnest")
+	}
+	if s.EmitProcBase {
+		l = append(l, "emitters:process-wide-base-stack")
 	}
 	if s.EmitShared {
 		l = append(l, "emitshared")
